@@ -272,6 +272,14 @@ func TestC11(t *testing.T) {
 			w.buyStorage(a, a.Bech, 30, 1_000_000_000, "")
 			w.postFile(a, append([]byte{byte(i + 1)}, c02Content(50)...), 2, 0)
 		}
+		// a sparse, generated who-wrote-to-whom pattern (inboxes are neighbours in one key space)
+		for i, from := range accs {
+			for j, to := range accs {
+				if i != j && rapid.IntRange(0, 9).Draw(rt, "wrote") < 4 {
+					w.f.Exec(&notiftypes.MsgCreateNotification{Creator: from.Bech, To: to.Bech, Contents: `{"hi":1}`})
+				}
+			}
+		}
 		env := func() *fillEnv {
 			e := &fillEnv{Height: w.f.Height(), Names: []string{"owner0.jkl", "owner1.jkl", "owner2.jkl", "Owner0.jkl", "owner1xjkl", "feed0", "feed1", "feed2", "Feed0", "FEED1", "feed0 ", " feed1", "fe ed2"}}
 			for _, a := range accs {
@@ -308,6 +316,15 @@ func TestC11(t *testing.T) {
 			}
 			m := newMsgOf(c, u)
 			fillMsg(rt, m, env(), nil)
+			if rapid.IntRange(0, 9).Draw(rt, "inboxDelete") == 0 {
+				// an inbox deletion with boundary time stamps (0, -1, an existing one) about an existing sender
+				del := &notiftypes.MsgDeleteNotification{Creator: accs[rapid.IntRange(0, 4).Draw(rt, "inboxOwner")].Bech, From: accs[rapid.IntRange(0, 4).Draw(rt, "sender")].Bech,
+					Time: rapid.SampledFrom([]int64{0, 0, -1, 1}).Draw(rt, "timeStamp")}
+				if ns := w.c.App.NotificationsKeeper.GetAllNotifications(w.f.Ctx); len(ns) > 0 && rapid.Bool().Draw(rt, "existingTime") {
+					del.Time = ns[rapid.IntRange(0, len(ns)-1).Draw(rt, "whichTime")].Time
+				}
+				m = del
+			}
 			signer := reflect.ValueOf(m).Elem().FieldByName("Creator").String()
 			before := c11Owned(w)
 			res := w.f.Exec(m)
